@@ -177,6 +177,8 @@ class World:
         self.live: dict[str, tuple[int, set[str]]] = {}  # block name -> (task id, supplied types) while its body runs
         self.tg_enabled = True
         self.probe_defaults = True
+        self.metrics: dict[str, Any] = {}
+        self.on_completion: Any = None
         self.seq = 0  # logical clock for spawn / block-entry ordering
         self.block_entry_seq: dict[str, int] = {}
         self.tg_parked: list[dict[str, Any]] = []  # task-group probes waiting to be released (own low-priority queue)
@@ -190,9 +192,42 @@ class World:
         self.uid += 1
         return self.uid
 
+    def resolve_option(self, opt: str, value: Any) -> Any:
+        if opt == "logger":
+            return logging.getLogger(value)
+        return value
+
     def tick(self) -> int:
         self.seq += 1
         return self.seq
+
+    def completion(self, name: str, kind: str) -> Any:
+        """completion callback double: logs ("completion", name, is_completed, time) and keeps the metrics object"""
+
+        def note(metrics: Any) -> None:
+            self.metrics[name] = metrics
+            try:
+                snap = (bool(metrics.is_completed), metrics.time)
+            except BaseException as exc:  # noqa: BLE001
+                snap = ("error", repr(exc))
+            self.event("completion", name, *snap)
+            if self.on_completion is not None:
+                self.on_completion(name, metrics)
+
+        if kind.startswith("async"):
+            async def acb(metrics: Any) -> None:
+                note(metrics)
+                if kind.endswith("raise"):
+                    raise RuntimeError(f"completion of {name}")
+
+            return acb
+
+        def cb(metrics: Any) -> None:
+            note(metrics)
+            if kind.endswith("raise"):
+                raise RuntimeError(f"completion of {name}")
+
+        return cb
 
     def idle(self, timeout: float | None) -> bool:
         """loop idle hook: ordinary gates first (scheduler choice); only when none is parked, release ONE task-group
@@ -420,7 +455,13 @@ async def run_block(W: World, block: dict[str, Any], rng: random.Random | None) 
             ds = [Disposable(W, i, spec, name) for i, spec in enumerate(block["disposables"])]
             W.disposables[name] = ds
             kw["disposables"] = ds
-        cm = ctx.scope(name, *states, **kw)
+        if block.get("completion"):
+            kw["completion"] = W.completion(name, block["completion"])
+        for opt in ("logger", "trace_id"):
+            if block.get(opt) is not None:
+                kw[opt] = W.resolve_option(opt, block[opt])
+        W.event("construct", name)
+        cm = ctx.scope(block.get("scope_name", name), *states, **kw)
         entered = False
         try:
             await cm.__aenter__()
@@ -444,7 +485,15 @@ async def run_block(W: World, block: dict[str, Any], rng: random.Random | None) 
             finally:
                 left()
     else:
-        cm2 = ctx.scope(name, *states) if kind == "sscope" else ctx.updated(*states)
+        kw2: dict[str, Any] = {}
+        if kind == "sscope":
+            if block.get("completion"):
+                kw2["completion"] = W.completion(name, block["completion"])
+            for opt in ("logger", "trace_id"):
+                if block.get(opt) is not None:
+                    kw2[opt] = W.resolve_option(opt, block[opt])
+            W.event("construct", name)
+        cm2 = ctx.scope(block.get("scope_name", name), *states, **kw2) if kind == "sscope" else ctx.updated(*states)
         try:
             with cm2:
                 try:
